@@ -1302,6 +1302,7 @@ static VecCase genVec()
     o.op = G::i(0, V_NOPS - 1);
     // copies are what the test is about: make them frequent
     if (G::pct(20)) o.op = G::pick<int>({V_NEW_COPY, V_ASSIGN, V_NEW_COPY, V_ASSIGN, V_SWAP, V_MOVE_ASSIGN});
+    else if (G::pct(12)) o.op = G::pick<int>({V_TAKE_CIT, V_TAKE_MIT, V_WRITE_MIT, V_RESERVE});
     o.h = G::i(0, 7);
     o.h2 = G::i(0, 7);
     o.pos = G::i(0, 9);
@@ -1595,5 +1596,997 @@ static void runVec(const VecCase& c, Ctx& ctx)
   }
 }
 VERIF_SUB(vectort, VecCase, genVec, runVec);
+
+
+// ===================================================================== sub: krigcalc ======
+// KrigingCalcul keeps pointers to its inputs and computes every result lazily.  After any sequence of set*() calls
+// (including refused ones and "the content behind the pointer changed, set*() called again") interleaved with getters,
+// every getter must answer as a new object that is given the current inputs.
+struct KOp
+{
+  int op = 0, i = 0, j = 0, g = 0, chk = 1; // chk: every getter is compared after this operation (which also fills every cache)
+  template<class A> void io(A& a) { a("op", op)("i", i)("j", j)("g", g)("chk", chk); }
+};
+enum { KO_SETDATA = 0, KO_SETLHS, KO_SETRHS, KO_SETVAR, KO_GET, KO_BADDATA, KO_BADLHS, KO_BADRHS, KO_BADVAR, KO_TOUCH_Z, KO_TOUCH_SIGMA, KO_TOUCH_SIGMA0,
+       KO_SETBAYES, KO_SETCOLCOK, KO_NOPS };
+static const char* kopName(int o)
+{
+  static const char* n[] = {"setData", "setLHS", "setRHS", "setVar", "get", "setData-refused", "setLHS-refused", "setRHS-refused", "setVar-refused",
+                            "Z-changed+setData", "Sigma-changed+setLHS", "Sigma0-changed+setRHS", "setBayes", "setColCokUnique"};
+  return (o >= 0 && o < KO_NOPS) ? n[o] : "?";
+}
+enum { KG_ESTIM = 0, KG_STDV, KG_VARZ, KG_POSTMEAN, KG_MU, KG_LAMBDA, KG_POSTCOV, KG_STDVMAT, KG_VARZMAT, KG_Y0, KG_LAMBDA0, KG_NG };
+static const char* kgName(int g)
+{
+  static const char* n[] = {"getEstimation", "getStdv", "getVarianceZstar", "getPostMean", "getMu", "getLambda", "getPostCov", "getStdvMat",
+                            "getVarianceZstarMat", "getY0", "getLambda0"};
+  return n[g];
+}
+struct KCase
+{
+  int neq = 3, nbfl = 1, nrhs = 1, dual = 0, useBayes = 0, useColCok = 0;
+  std::vector<std::vector<double>> Z, M, S, X, S0, X0, S00, PM, PC, ZP; // pools (matrices row-major; S, S00, PC as factors: A A' + I)
+  std::vector<int> colcok;
+  std::vector<KOp> ops;
+  template<class A> void io(A& a)
+  {
+    a("neq", neq)("nbfl", nbfl)("nrhs", nrhs)("dual", dual)("useBayes", useBayes)("useColCok", useColCok)("Z", Z)("M", M)("S", S)("X", X)("S0", S0)("X0", X0)(
+      "S00", S00)("PM", PM)("PC", PC)("ZP", ZP)("colcok", colcok)("ops", ops);
+  }
+};
+static std::vector<double> genVals(int n, int lo = -3, int hi = 3)
+{
+  std::vector<double> v;
+  for (int k = 0; k < n; k++) v.push_back(G::r(lo, hi, 4));
+  return v;
+}
+static KCase genK()
+{
+  KCase c;
+  c.neq = G::sz(2, 7);
+  c.nbfl = G::pick<int>({0, 1, 1, 2});
+  if (c.nbfl >= c.neq) c.nbfl = c.neq - 1;
+  c.nrhs = G::i(1, 3);
+  c.dual = G::pct(15) ? 1 : 0;
+  c.useBayes = (!c.dual && c.nbfl > 0 && G::pct(25)) ? 1 : 0;
+  c.useColCok = (!c.dual && c.nrhs >= 2 && G::pct(25)) ? 1 : 0;
+  int np = G::i(2, 3);
+  for (int k = 0; k < np; k++)
+  {
+    c.Z.push_back(genVals(c.neq, -5, 5));
+    c.M.push_back(genVals(c.nrhs));
+    c.S.push_back(genVals(c.neq * c.neq, -1, 1));
+    c.X.push_back(genVals(c.neq * c.nbfl));
+    c.S0.push_back(genVals(c.neq * c.nrhs, -1, 1));
+    c.X0.push_back(genVals(c.nrhs * c.nbfl));
+    c.S00.push_back(genVals(c.nrhs * c.nrhs, -1, 1));
+    c.PM.push_back(genVals(c.nbfl));
+    c.PC.push_back(genVals(c.nbfl * c.nbfl, -1, 1));
+    c.ZP.push_back(genVals(c.nrhs));
+  }
+  // first drift function is the constant (full column rank with the jittered second one)
+  for (auto& x : c.X)
+    for (int i = 0; i < c.neq && c.nbfl > 0; i++) x[(size_t)(i * c.nbfl)] = 1.;
+  if (c.useColCok)
+  {
+    int ncc = G::i(1, c.nrhs - 1);
+    std::vector<int> p = G::perm(c.nrhs);
+    c.colcok.assign(p.begin(), p.begin() + ncc);
+    std::sort(c.colcok.begin(), c.colcok.end());
+  }
+  int n = G::sz(2, 25);
+  for (int k = 0; k < n; k++)
+  {
+    KOp o;
+    o.op = G::pick<int>({KO_SETDATA, KO_SETLHS, KO_SETLHS, KO_SETRHS, KO_SETRHS, KO_SETVAR, KO_SETVAR, KO_GET, KO_GET, KO_GET, KO_GET, KO_BADDATA, KO_BADLHS,
+                         KO_BADRHS, KO_BADVAR, KO_TOUCH_Z, KO_TOUCH_SIGMA, KO_TOUCH_SIGMA0, KO_SETBAYES, KO_SETCOLCOK});
+    o.i = G::i(0, 5);
+    o.j = G::i(0, 5);
+    o.g = G::i(0, KG_NG - 1);
+    o.chk = G::pct(50) ? 1 : 0;
+    c.ops.push_back(o);
+  }
+  return c;
+}
+static MatrixSquareSymmetric spdOf(const std::vector<double>& a, int n, double shift)
+{
+  MatrixSquareSymmetric m(n);
+  for (int i = 0; i < n; i++)
+    for (int j = 0; j <= i; j++)
+    {
+      double v = (i == j) ? shift : 0.;
+      for (int k = 0; k < n; k++) v += a[(size_t)(i * n + k)] * a[(size_t)(j * n + k)];
+      m.setValue(i, j, v);
+    }
+  return m;
+}
+static MatrixRectangular rectOf(const std::vector<double>& a, int nr, int nc)
+{
+  MatrixRectangular m(nr, nc);
+  for (int i = 0; i < nr; i++)
+    for (int j = 0; j < nc; j++) m.setValue(i, j, a[(size_t)(i * nc + j)]);
+  return m;
+}
+struct KInputs
+{
+  std::vector<VectorDouble> Z, M, PM, ZP;
+  std::vector<MatrixSquareSymmetric> S, S00, PC;
+  std::vector<MatrixRectangular> X, S0, X0;
+  VectorInt colcok;
+  VectorDouble badZ;
+  MatrixSquareSymmetric badS;
+  MatrixRectangular badS0;
+};
+struct KState // indices into the pools; -1: absent
+{
+  int z = -1, m = -1, s = -1, x = -1, s0 = -1, x0 = -1, s00 = -1, bayes = -1, colcok = -1;
+};
+static void kcollect(KrigingCalcul& k, int g, std::vector<double>& out, std::vector<long>& shape)
+{
+  auto vec = [&](const VectorDouble& v) { shape.push_back((long)v.size()); for (double x : v.getVector()) out.push_back(x); };
+  auto mat = [&](const AMatrix* m) {
+    if (m == nullptr) { shape.push_back(-1); return; }
+    shape.push_back(m->getNRows());
+    shape.push_back(m->getNCols());
+    for (int i = 0; i < m->getNRows(); i++)
+      for (int j = 0; j < m->getNCols(); j++) out.push_back(m->getValue(i, j));
+  };
+  switch (g)
+  {
+    case KG_ESTIM: vec(k.getEstimation()); break;
+    case KG_STDV: vec(k.getStdv()); break;
+    case KG_VARZ: vec(k.getVarianceZstar()); break;
+    case KG_POSTMEAN: vec(k.getPostMean()); break;
+    case KG_MU: mat(k.getMu()); break;
+    case KG_LAMBDA: mat(k.getLambda()); break;
+    case KG_POSTCOV: mat(k.getPostCov()); break;
+    case KG_STDVMAT: mat(k.getStdvMat()); break;
+    case KG_VARZMAT: mat(k.getVarianceZstarMat()); break;
+    case KG_Y0: mat(k.getY0()); break;
+    default: mat(k.getLambda0()); break;
+  }
+}
+// getters whose formulas need inputs that the current state lacks dereference null pointers in the library (whatever
+// the history): they are outside the generated domain
+static bool getterInDomain(const KCase& c, const KState& st, int g)
+{
+  if (st.z < 0 || st.m < 0 || st.s < 0 || st.s0 < 0 || st.s00 < 0) return false;
+  bool uk = st.x >= 0;
+  if (uk && st.x0 < 0) return false;
+  if (g == KG_LAMBDA0 && st.colcok < 0) return false;
+  if ((g == KG_MU || g == KG_POSTCOV || g == KG_POSTMEAN || g == KG_Y0) && !uk) return false;
+  if (st.bayes >= 0 && !uk) return false;
+  if (c.dual && g != KG_ESTIM && g != KG_LAMBDA) return false;
+  return true;
+}
+// Executes the first 'nops' operations (comparisons where the case asks for them and after the last one).
+// Returns false when a getter differs: failOp / failG / what describe it.
+static bool kExec(const KCase& c, size_t nops, Ctx& ctx, size_t& failOp, int& failG, std::string& what, int& sets)
+{
+  KInputs in;
+  size_t np = c.Z.size();
+  for (size_t k = 0; k < np; k++)
+  {
+    in.Z.push_back(VectorDouble(c.Z[k].begin(), c.Z[k].end()));
+    in.M.push_back(VectorDouble(c.M[k].begin(), c.M[k].end()));
+    in.PM.push_back(VectorDouble(c.PM[k].begin(), c.PM[k].end()));
+    in.ZP.push_back(VectorDouble(c.ZP[k].begin(), c.ZP[k].end()));
+    in.S.push_back(spdOf(c.S[k], c.neq, 1.));
+    in.S00.push_back(spdOf(c.S00[k], c.nrhs, (double)c.neq + 2.)); // larger than any explained variance of these sizes is not needed: stdv clips at 0
+    in.PC.push_back(spdOf(c.PC[k], c.nbfl, 1.));
+    in.X.push_back(rectOf(c.X[k], c.neq, c.nbfl));
+    in.S0.push_back(rectOf(c.S0[k], c.neq, c.nrhs));
+    in.X0.push_back(rectOf(c.X0[k], c.nrhs, c.nbfl));
+  }
+  in.colcok = VectorInt(c.colcok.begin(), c.colcok.end());
+  in.badZ = VectorDouble((size_t)c.neq + 1, 1.);
+  in.badS = MatrixSquareSymmetric(c.neq + 1);
+  in.badS0 = MatrixRectangular(c.neq + 1, c.nrhs);
+
+  // the object under test starts complete (dimensions are fixed by the first inputs it sees)
+  KState st;
+  st.z = st.m = st.s = st.s0 = st.s00 = 0;
+  st.x = st.x0 = (c.nbfl > 0) ? 0 : -1;
+  auto X = [&](int i) { return i >= 0 ? &in.X[(size_t)i] : nullptr; };
+  auto X0 = [&](int i) { return i >= 0 ? &in.X0[(size_t)i] : nullptr; };
+  ctx.at("KrigingCalcul()");
+  std::unique_ptr<KrigingCalcul> inc(new KrigingCalcul(c.dual != 0, &in.Z[0], &in.S[0], X(st.x), &in.S00[0], &in.M[0]));
+  inc->setRHS(&in.S0[0], X0(st.x0));
+
+  auto fresh = [&](const KState& s) {
+    std::unique_ptr<KrigingCalcul> f(new KrigingCalcul(c.dual != 0, &in.Z[(size_t)s.z], &in.S[(size_t)s.s], X(s.x), &in.S00[(size_t)s.s00], &in.M[(size_t)s.m]));
+    f->setRHS(&in.S0[(size_t)s.s0], X0(s.x0));
+    if (s.bayes >= 0) f->setBayes(&in.PM[(size_t)s.bayes], &in.PC[(size_t)s.bayes]);
+    if (s.colcok >= 0) f->setColCokUnique(&in.ZP[(size_t)s.colcok], &in.colcok);
+    return f;
+  };
+  // compare every getter of the domain; returns the name of the first that differs
+  auto compare = [&](std::string& what) -> int {
+    std::unique_ptr<KrigingCalcul> f = fresh(st);
+    for (int g = 0; g < KG_NG; g++)
+    {
+      if (!getterInDomain(c, st, g)) continue;
+      std::vector<double> a, b;
+      std::vector<long> sa, sb;
+      ctx.at(std::string("incremental:") + kgName(g));
+      kcollect(*inc, g, a, sa);
+      ctx.at(std::string("fresh:") + kgName(g));
+      kcollect(*f, g, b, sb);
+      if (sa != sb) { what = "shape"; return g; }
+      double scale = 0, worst = 0;
+      for (double x : b) scale = std::max(scale, std::fabs(x));
+      for (size_t k = 0; k < a.size(); k++) worst = std::max(worst, std::fabs(a[k] - b[k]));
+      if (!(worst <= 1e-9 * std::max(scale, 1e-300))) { what = fmt("values differ by %.3g (magnitude %.3g)", worst, scale); return g; }
+    }
+    return -1;
+  };
+
+  sets = 0;
+  size_t mp = np;
+  for (size_t io = 0; io < nops; io++)
+  {
+    const KOp& o = c.ops[io];
+    int i = (int)((size_t)o.i % mp), j = (int)((size_t)o.j % mp);
+    ctx.at(kopName(o.op));
+    switch (o.op)
+    {
+      case KO_SETDATA:
+        if (o.j == 5) { inc->setData(&in.Z[(size_t)i], nullptr); st.z = i; }
+        else { inc->setData(&in.Z[(size_t)i], &in.M[(size_t)j]); st.z = i; st.m = j; }
+        break;
+      case KO_SETLHS:
+      {
+        int x = (c.nbfl > 0 && o.j != 5) ? j : -1;
+        inc->setLHS(&in.S[(size_t)i], X(x));
+        st.s = i;
+        st.x = x;
+        break;
+      }
+      case KO_SETRHS:
+        inc->setRHS(&in.S0[(size_t)i], X0(c.nbfl > 0 ? j : -1));
+        st.s0 = i;
+        st.x0 = (c.nbfl > 0) ? j : -1;
+        break;
+      case KO_SETVAR: inc->setVar(&in.S00[(size_t)i]); st.s00 = i; break;
+      case KO_GET:
+        if (getterInDomain(c, st, o.g))
+        {
+          std::vector<double> a;
+          std::vector<long> sa;
+          kcollect(*inc, o.g, a, sa);
+        }
+        continue; // nothing to compare after a getter alone
+      case KO_BADDATA: (void)inc->setData(&in.badZ, nullptr); break;
+      case KO_BADLHS: (void)inc->setLHS(&in.badS, X(st.x)); break;
+      case KO_BADRHS: (void)inc->setRHS(&in.badS0, X0(st.x0)); break; // refused before anything is stored
+      case KO_BADVAR: { MatrixSquareSymmetric bad(c.nrhs + 1); (void)inc->setVar(&bad); break; }
+      case KO_TOUCH_Z:
+        for (auto& e : in.Z[(size_t)st.z]) e = e * 0.5 + (double)(o.j + 1);
+        inc->setData(nullptr, nullptr);
+        break;
+      case KO_TOUCH_SIGMA:
+        for (int d = 0; d < c.neq; d++) in.S[(size_t)st.s].setValue(d, d, in.S[(size_t)st.s].getValue(d, d) + 0.5 + 0.25 * o.j);
+        inc->setLHS(nullptr, X(st.x));
+        break;
+      case KO_TOUCH_SIGMA0:
+        for (int d = 0; d < c.neq; d++) in.S0[(size_t)st.s0].setValue(d, 0, in.S0[(size_t)st.s0].getValue(d, 0) * 0.5 + 0.125 * o.j);
+        inc->setRHS(&in.S0[(size_t)st.s0], X0(st.x0));
+        break;
+      case KO_SETBAYES:
+        if (!c.useBayes) continue;
+        if (o.j == 5) { inc->setBayes(nullptr, nullptr); st.bayes = -1; }
+        else { inc->setBayes(&in.PM[(size_t)i], &in.PC[(size_t)i]); st.bayes = i; }
+        break;
+      case KO_SETCOLCOK:
+        if (!c.useColCok) continue;
+        if (o.j == 5) { inc->setColCokUnique(nullptr, nullptr); st.colcok = -1; }
+        else { inc->setColCokUnique(&in.ZP[(size_t)i], &in.colcok); st.colcok = i; }
+        break;
+      default: continue;
+    }
+    // KO_BADRHS: the refused call leaves the previous right-hand side in place
+    sets++;
+    if (!o.chk && io + 1 < nops) continue;
+    int g = compare(what);
+    if (g >= 0)
+    {
+      failOp = io;
+      failG = g;
+      return false;
+    }
+  }
+  return true;
+}
+static void runK(const KCase& c, Ctx& ctx)
+{
+  ctx.label(c.dual ? "dual" : (c.nbfl > 0 ? "drift" : "no-drift"));
+  if (c.useBayes) ctx.label("bayes");
+  if (c.useColCok) ctx.label("colcok");
+  size_t failOp = 0;
+  int failG = 0, sets = 0;
+  std::string what;
+  if (kExec(c, c.ops.size(), ctx, failOp, failG, what, sets))
+  {
+    ctx.nontrivial(sets >= 2);
+    return;
+  }
+  // the difference may have been introduced before the operation after which it was seen: shortest failing prefix
+  for (size_t n = 1; n <= failOp; n++)
+  {
+    size_t fo = 0;
+    int fg = 0, s2 = 0;
+    std::string w2;
+    if (!kExec(c, n, ctx, fo, fg, w2, s2))
+    {
+      failOp = fo;
+      failG = fg;
+      what = w2;
+      break;
+    }
+  }
+  const char* opn = kopName(c.ops[failOp].op);
+  // the optional parts of the object have caches of their own: they are named in the key when the sequence has activated them
+  bool cc = false, by = false;
+  for (size_t k = 0; k <= failOp; k++)
+  {
+    if (c.useColCok && c.ops[k].op == KO_SETCOLCOK) cc = true;
+    if (c.useBayes && c.ops[k].op == KO_SETBAYES) by = true;
+  }
+  ctx.fail(std::string("krigcalc:") + (cc ? "colcok:" : "") + kgName(failG) + ":after-" + opn + (by ? ":bayes" : ""),
+           fmt("%s after operation #%zu (%s): %s between the updated object and a new object given the same inputs", kgName(failG), failOp, opn, what.c_str()));
+}
+
+VERIF_SUB(krigcalc, KCase, genK, runK);
+
+
+// ===================================================================== sub: modelinc ======
+// A Model edited step by step (structures added / removed / modified, drift and means changed, covariance matrices
+// requested in between) answers as a Model built in one go from the final description.
+struct MOp
+{
+  int op = 0, i = 0;
+  CovSpec cov;
+  template<class A> void io(A& a) { a("op", op)("i", i)("cov", cov); }
+};
+enum { MO_ADD = 0, MO_DEL, MO_DELALL, MO_SILL, MO_RANGES, MO_PARAM, MO_DRIFT, MO_MEANS, MO_EVAL, MO_SETLIST, MO_FILTER, MO_NOPS };
+static const char* mopName(int o)
+{
+  static const char* n[] = {"addCov", "delCova", "delAllCovas", "setSill", "setRanges", "setParam", "setDriftIRF", "setMeans", "evalCovMatrix",
+                            "setCovList", "setCovaFiltered"};
+  return (o >= 0 && o < MO_NOPS) ? n[o] : "?";
+}
+struct MCase
+{
+  ModelSpec base, other;
+  DbSpec db;
+  std::vector<MOp> ops;
+  template<class A> void io(A& a) { a("base", base)("other", other)("db", db)("ops", ops); }
+};
+static MCase genM()
+{
+  MCase c;
+  int ndim = G::pick<int>({1, 2, 2, 3}), nvar = G::pick<int>({1, 1, 2});
+  c.base = genModelSpec(ndim, nvar, true);
+  c.other = genModelSpec(ndim, nvar, true);
+  auto sets = vfgeo::genPointSets(ndim, {G::sz(3, 9)}, false, true, kL);
+  c.db = genDbSpec(sets[0], nvar, 0, false);
+  int n = G::sz(1, 14);
+  for (int k = 0; k < n; k++)
+  {
+    MOp o;
+    // (setParam is not generated: the library keeps the scale, not the range, when the third parameter changes, and which
+    //  of the two a caller may expect to be kept is nowhere stated)
+    o.op = G::pick<int>({MO_ADD, MO_ADD, MO_DEL, MO_DEL, MO_DELALL, MO_SILL, MO_RANGES, MO_DRIFT, MO_MEANS, MO_EVAL, MO_EVAL, MO_SETLIST, MO_FILTER});
+    o.i = G::i(0, 7);
+    o.cov = genCovSpec(ndim, nvar, true);
+    c.ops.push_back(o);
+  }
+  return c;
+}
+struct ModelImage
+{
+  std::string ser;
+  std::vector<double> vals;
+};
+static ModelImage imageOf(Model* m, Db* db, Ctx& ctx, const char* who)
+{
+  ModelImage im;
+  ctx.at(std::string(who) + ":getters");
+  im.ser = serModel(m);
+  if (m->getCovaNumber() <= 0) return im;
+  auto add = [&](const AMatrix& a) {
+    im.vals.push_back(a.getNRows());
+    im.vals.push_back(a.getNCols());
+    for (int i = 0; i < a.getNRows(); i++)
+      for (int j = 0; j < a.getNCols(); j++) im.vals.push_back(a.getValue(i, j));
+  };
+  ctx.at(std::string(who) + ":evalCovMatrix");
+  add(m->evalCovMatrix(db, db));
+  ctx.at(std::string(who) + ":evalCovMatrixOptim");
+  add(m->evalCovMatrixOptim(db, db));
+  ctx.at(std::string(who) + ":evalCovMatrixSymmetricOptim");
+  add(m->evalCovMatrixSymmetricOptim(db));
+  ctx.at(std::string(who) + ":eval0/drift");
+  add(m->eval0Nvar());
+  if (m->getDriftNumber() > 0) add(m->evalDriftMatrix(db));
+  return im;
+}
+static void runM(const MCase& c, Ctx& ctx)
+{
+  int ndim = c.base.ndim, nvar = c.base.nvar;
+  defineDefaultSpace(ESpaceType::RN, (unsigned)ndim);
+  std::unique_ptr<Db> db = buildDb(c.db);
+  ModelSpec cur = c.base;
+  std::vector<int> filt(cur.covs.size(), 0);
+  ctx.at("build");
+  std::unique_ptr<Model> inc = buildModel(cur);
+  std::unique_ptr<Model> oth = buildModel(c.other);
+  int edits = 0;
+  for (size_t io = 0; io < c.ops.size(); io++)
+  {
+    const MOp& o = c.ops[io];
+    int n = (int)cur.covs.size();
+    int i = n ? o.i % n : 0;
+    ctx.at(mopName(o.op));
+    switch (o.op)
+    {
+      case MO_ADD: addCovTo(inc.get(), o.cov, ndim); cur.covs.push_back(o.cov); filt.push_back(0); break;
+      case MO_DEL: if (n) { inc->delCova(i); cur.covs.erase(cur.covs.begin() + i); filt.erase(filt.begin() + i); } break;
+      case MO_DELALL: inc->delAllCovas(); cur.covs.clear(); filt.clear(); break;
+      case MO_SILL:
+        if (n)
+        {
+          MatrixSquareSymmetric S(nvar);
+          for (int a = 0; a < nvar; a++)
+            for (int b = 0; b <= a; b++) S.setValue(a, b, o.cov.sill[(size_t)(a * nvar + b)]);
+          inc->getCova(i)->setSill(S);
+          cur.covs[(size_t)i].sill = o.cov.sill;
+        }
+        break;
+      case MO_RANGES:
+        if (n && cur.covs[(size_t)i].type != 0)
+        {
+          inc->getCova(i)->setRanges(VectorDouble(o.cov.ranges.begin(), o.cov.ranges.end()));
+          cur.covs[(size_t)i].ranges = o.cov.ranges;
+        }
+        break;
+      case MO_PARAM:
+        if (n && cur.covs[(size_t)i].type == 4)
+        {
+          double p = (o.i & 1) ? 0.75 : 1.25;
+          inc->getCova(i)->setParam(p);
+          cur.covs[(size_t)i].param = p;
+        }
+        break;
+      case MO_DRIFT: inc->setDriftIRF(o.i % 2); cur.drift = o.i % 2; break;
+      case MO_MEANS:
+      {
+        VectorDouble mm;
+        for (int v = 0; v < nvar; v++) mm.push_back(0.5 * (o.i + v) - 1.);
+        inc->setMeans(mm);
+        cur.means.assign(mm.begin(), mm.end());
+        break;
+      }
+      case MO_EVAL:
+        if (n)
+        {
+          if (o.i % 3 == 0) (void)inc->evalCovMatrix(db.get(), db.get());
+          else if (o.i % 3 == 1) (void)inc->evalCovMatrixOptim(db.get(), db.get());
+          else (void)inc->evalCovMatrixSymmetricOptim(db.get());
+        }
+        continue;
+      case MO_SETLIST:
+        inc->setCovList(oth->getCovAnisoList());
+        cur.covs = c.other.covs;
+        filt.assign(cur.covs.size(), 0);
+        break;
+      case MO_FILTER:
+        if (n) { inc->setCovaFiltered(i, (o.i & 1) != 0); filt[(size_t)i] = (o.i & 1); }
+        break;
+      default: continue;
+    }
+    edits++;
+    // a Model built in one go from the current description (the means of a Model with a drift are not used: the
+    // description keeps them as they were given)
+    ctx.at("rebuild");
+    std::unique_ptr<Model> fresh(Model::createFromEnvironment(nvar, ndim));
+    for (auto& cs : cur.covs) addCovTo(fresh.get(), cs, ndim);
+    for (size_t k = 0; k < filt.size(); k++)
+      if (filt[k]) fresh->setCovaFiltered((int)k, true);
+    bool meansGiven = false, driftGiven = false;
+    // replay the drift / means settings in the order of their last occurrence
+    int lastDrift = -1, lastMeans = -1;
+    for (size_t k = 0; k <= io; k++)
+    {
+      if (c.ops[k].op == MO_DRIFT) lastDrift = (int)k;
+      if (c.ops[k].op == MO_MEANS) lastMeans = (int)k;
+    }
+    auto giveDrift = [&]() { if (cur.drift >= 0) { fresh->setDriftIRF(cur.drift); driftGiven = true; } };
+    auto giveMeans = [&]() { if (c.base.drift < 0 || lastMeans >= 0) { fresh->setMeans(VectorDouble(cur.means.begin(), cur.means.end())); meansGiven = true; } };
+    if (lastDrift <= lastMeans) { giveDrift(); giveMeans(); }
+    else { giveMeans(); giveDrift(); }
+    (void)meansGiven;
+    (void)driftGiven;
+    ModelImage a = imageOf(inc.get(), db.get(), ctx, "edited");
+    ModelImage b = imageOf(fresh.get(), db.get(), ctx, "rebuilt");
+    if (a.ser != b.ser)
+    {
+      ctx.fail(std::string("modelinc:getters:after-") + mopName(o.op), fmt("after operation #%zu the edited Model reads\n%s\nthe rebuilt one\n%s", io, a.ser.c_str(), b.ser.c_str()));
+      return;
+    }
+    if (a.vals.size() != b.vals.size())
+    {
+      ctx.fail(std::string("modelinc:shape:after-") + mopName(o.op), fmt("after operation #%zu: %zu values from the edited Model, %zu from the rebuilt one", io, a.vals.size(), b.vals.size()));
+      return;
+    }
+    double scale = 0, worst = 0;
+    for (double x : b.vals) scale = std::max(scale, std::fabs(x));
+    for (size_t k = 0; k < a.vals.size(); k++) worst = std::max(worst, std::fabs(a.vals[k] - b.vals[k]));
+    if (!(worst <= 1e-9 * std::max(scale, 1e-300)))
+    {
+      ctx.fail(std::string("modelinc:values:after-") + mopName(o.op), fmt("after operation #%zu matrices differ by %.3g (magnitude %.3g)", io, worst, scale));
+      return;
+    }
+  }
+  ctx.nontrivial(edits >= 2);
+}
+VERIF_SUB(modelinc, MCase, genM, runM);
+
+
+// ===================================================================== sub: copies ========
+// copy (constructor, operator= onto an object that already has a content, clone) -> the copy reads as the source;
+// mutate one side -> the other side still reads as before; destroy one side -> the survivor is still usable and can be
+// destroyed.  Each case runs in a child process: a shallow copy shows up as a use-after-free / double free there.
+struct Mut
+{
+  int op = 0, a = 0, b = 0;
+  double v = 1;
+  template<class A> void io(A& ar) { ar("op", op)("a", a)("b", b)("v", v); }
+};
+enum { CK_DB = 0, CK_GRID, CK_MODEL, CK_COVLIST, CK_COV, CK_DRIFTS, CK_NEIGH, CK_VARIO, CK_VARIOPARAM, CK_MATRECT, CK_MATSYM, CK_MATSPARSE, CK_N };
+static const char* ckName(int k)
+{
+  static const char* n[] = {"Db", "DbGrid", "Model", "ACovAnisoList", "CovAniso", "DriftList", "NeighMoving", "Vario", "VarioParam",
+                            "MatrixRectangular", "MatrixSquareSymmetric", "MatrixSparse"};
+  return n[k];
+}
+struct CopyCase
+{
+  int kind = 0, how = 0, mutSide = 0, destroyFirst = 0, ndim = 2, nvar = 1;
+  DbSpec d1, d2;
+  GridSpec g1, g2;
+  ModelSpec m1, m2;
+  NeighSpec n1, n2;
+  std::vector<int> chk1, chk2; // additional checkers of the two neighbourhoods
+  VarioSpec v1, v2;
+  int nr = 2, nc = 2, sparseEigen = 0;
+  std::vector<double> a1, a2;
+  std::vector<Mut> muts;
+  template<class A> void io(A& a)
+  {
+    a("kind", kind)("how", how)("mutSide", mutSide)("destroyFirst", destroyFirst)("ndim", ndim)("nvar", nvar)("d1", d1)("d2", d2)("g1", g1)("g2", g2)("m1", m1)(
+      "m2", m2)("n1", n1)("n2", n2)("chk1", chk1)("chk2", chk2)("v1", v1)("v2", v2)("nr", nr)("nc", nc)("sparseEigen", sparseEigen)("a1", a1)("a2", a2)("muts", muts);
+  }
+};
+static CopyCase genCopy()
+{
+  CopyCase c;
+  c.kind = G::i(0, CK_N - 1);
+  c.how = G::i(0, 2);
+  c.mutSide = G::i(0, 1);
+  c.destroyFirst = G::i(0, 1);
+  c.ndim = G::pick<int>({1, 2, 2, 3});
+  c.nvar = G::pick<int>({1, 2});
+  auto sets = vfgeo::genPointSets(c.ndim, {G::sz(3, 8), G::sz(3, 8)}, false, true, kL);
+  c.d1 = genDbSpec(sets[0], c.nvar, 10, true);
+  c.d2 = genDbSpec(sets[1], c.nvar, 10, true);
+  std::vector<double> org((size_t)c.ndim, 0.);
+  c.g1 = genGridSpec(c.ndim, org);
+  c.g2 = genGridSpec(c.ndim, org);
+  c.m1 = genModelSpec(c.ndim, c.nvar, true);
+  c.m2 = genModelSpec(c.ndim, c.nvar, true);
+  if (c.kind == CK_DRIFTS) { c.m1.drift = G::i(0, 2); c.m2.drift = G::i(0, 2); }
+  c.n1 = genNeighSpec(c.ndim);
+  c.n2 = genNeighSpec(c.ndim);
+  c.n1.moving = c.n2.moving = 1;
+  int k1 = G::i(0, 2), k2 = G::i(0, 2);
+  for (int k = 0; k < k1; k++) c.chk1.push_back(G::i(0, 2));
+  for (int k = 0; k < k2; k++) c.chk2.push_back(G::i(0, 2));
+  c.v1 = genVarioSpec(c.ndim);
+  c.v2 = genVarioSpec(c.ndim);
+  c.nr = G::i(1, 4);
+  c.nc = (c.kind == CK_MATRECT || c.kind == CK_MATSPARSE) ? G::i(1, 4) : c.nr;
+  c.sparseEigen = G::i(0, 1);
+  for (int k = 0; k < 16; k++) { c.a1.push_back(G::pct(30) ? 0. : G::r(-4, 4, 2)); c.a2.push_back(G::pct(30) ? 0. : G::r(-4, 4, 2)); }
+  int nm = G::sz(1, 5);
+  for (int k = 0; k < nm; k++)
+  {
+    Mut m;
+    m.op = G::i(0, 7);
+    m.a = G::i(0, 9);
+    m.b = G::i(0, 9);
+    m.v = G::r(1, 9, 2);
+    c.muts.push_back(m);
+  }
+  return c;
+}
+static ABiTargetCheck* newChecker(int k)
+{
+  switch (k % 3)
+  {
+    case 0: return BiTargetCheckBench::create(0, 2.5);
+    case 1: return BiTargetCheckCode::create(1, 0.5);
+    default: return BiTargetCheckDate::create(-1., 3.);
+  }
+}
+static std::unique_ptr<NeighMoving> buildMoving(const NeighSpec& n, const std::vector<int>& chk, int ndim)
+{
+  std::unique_ptr<NeighMoving> nm(NeighMoving::create(false, n.nmaxi, n.radius, n.nmini, n.nsect, n.nmaxi, VectorDouble((size_t)ndim, 1.)));
+  for (int k : chk) nm->addBiTargetCheck(newChecker(k));
+  return nm;
+}
+
+// The scenario, for one class.  'say' reports the stage reached (to the parent, through the pipe).
+template<class T, class Ser, class Mutate, class Clone>
+static void copyScenario(const CopyCase& c, Ctx& ctx, std::unique_ptr<T> src, std::unique_ptr<T> other, Ser ser, Mutate mutate, Clone clone,
+                         const std::function<void(const char*)>& say)
+{
+  static const char* hows[] = {"copy-constructor", "operator=", "clone"};
+  std::string pre = std::string("copy:") + ckName(c.kind) + ":" + hows[c.how] + ":";
+  say("built");
+  std::string s0 = ser(*src);
+  std::unique_ptr<T> cpy;
+  if (c.how == 0) cpy.reset(new T(*src));
+  else if (c.how == 1) { cpy = std::move(other); *cpy = *src; }
+  else cpy.reset(clone(*src));
+  other.reset();
+  say("copied");
+  std::string s1 = ser(*cpy);
+  if (s1 != s0) { ctx.fail(pre + "copy-differs-from-source", "the source reads\n" + s0 + "\nits copy\n" + s1); return; }
+  if (ser(*src) != s0) { ctx.fail(pre + "copying-changes-the-source", "the source reads\n" + s0 + "\nand after being copied\n" + ser(*src)); return; }
+  T& mutated = c.mutSide ? *cpy : *src;
+  T& kept = c.mutSide ? *src : *cpy;
+  int applied = 0;
+  for (auto& m : c.muts)
+  {
+    say("mutating");
+    std::string name = mutate(mutated, m);
+    if (name.empty()) continue;
+    applied++;
+    std::string sk = ser(kept);
+    if (sk != s0)
+    {
+      ctx.fail(pre + "mutation-leaks:" + name, std::string("after '") + name + "' on the " + (c.mutSide ? "copy" : "source") + ", the " + (c.mutSide ? "source" : "copy") +
+                                                 " reads\n" + sk + "\ninstead of\n" + s0);
+      return;
+    }
+  }
+  say("mutated");
+  std::string sm = ser(mutated);
+  // destroy one side, keep using the other
+  bool destroySrc = (c.destroyFirst == 0);
+  std::unique_ptr<T>& first = destroySrc ? src : cpy;
+  std::unique_ptr<T>& second = destroySrc ? cpy : src;
+  bool survivorIsMutated = (&*second == &mutated);
+  first.reset();
+  say("destroyed-one-side");
+  std::string ss = ser(*second);
+  if (ss != (survivorIsMutated ? sm : s0))
+  {
+    ctx.fail(pre + "destruction-changes-the-other", "after the destruction of the other side the object reads\n" + ss + "\ninstead of\n" + (survivorIsMutated ? sm : s0));
+    return;
+  }
+  for (auto& m : c.muts) (void)mutate(*second, m);
+  (void)ser(*second);
+  say("used-survivor");
+  second.reset();
+  say("destroyed-both");
+  ctx.nontrivial(applied > 0);
+}
+
+static VectorDouble constCol(int n, double v) { return VectorDouble((size_t)n, v); }
+static std::string mutateDb(Db& db, const Mut& m, bool isGrid)
+{
+  int ncol = db.getColumnNumber(), nech = db.getSampleNumber();
+  if (ncol <= 0 || nech <= 0) return "";
+  int ic = m.a % ncol, ie = m.b % nech;
+  switch (m.op % 8)
+  {
+    case 0: db.setValueByColIdx(ie, ic, m.v); return "setValueByColIdx";
+    case 1: db.addColumns(constCol(nech, m.v), "added", ELoc::UNKNOWN); return "addColumns";
+    case 2: if (ncol < 2) return ""; db.deleteColumn(db.getNameByColIdx(ic)); return "deleteColumn";
+    case 3: db.setName(db.getNameByColIdx(ic), "renamed"); return "setName";
+    case 4: db.setLocator(db.getNameByColIdx(ic), ELoc::Z, 0); return "setLocator";
+    case 5: if (isGrid) return ""; db.addSamples(1, m.v); return "addSamples";
+    case 6: if (isGrid || nech < 2) return ""; db.deleteSample(ie); return "deleteSample";
+    default: db.setColumn(constCol(nech, m.v), db.getNameByColIdx(ic)); return "setColumn";
+  }
+}
+static std::string mutateCov(CovAniso& cv, const Mut& m, int ndim)
+{
+  switch (m.op % 4)
+  {
+    case 0: cv.setSill(0, 0, cv.getSill(0, 0) + m.v); return "setSill";
+    case 1: if (!cv.hasRange()) return ""; cv.setRangeIsotropic(m.v * 3.); return "setRangeIsotropic";
+    case 2:
+    {
+      if (!cv.hasRange()) return "";
+      VectorDouble r;
+      for (int d = 0; d < ndim; d++) r.push_back(m.v * (d + 2));
+      cv.setRanges(r);
+      return "setRanges";
+    }
+    default:
+    {
+      if (!cv.hasRange() || ndim < 2) return "";
+      VectorDouble a((size_t)ndim, 0.);
+      a[0] = 10. * m.v;
+      cv.setAnisoAngles(a);
+      return "setAnisoAngles";
+    }
+  }
+}
+static std::string mutateMat(AMatrix& a, const Mut& m)
+{
+  int nr = a.getNRows(), nc = a.getNCols();
+  if (nr <= 0 || nc <= 0) return "";
+  switch (m.op % 4)
+  {
+    case 0: a.setValue(m.a % nr, m.b % nc, m.v + 100.); return "setValue";
+    case 1: a.prodScalar(m.v + 1.); return "prodScalar";
+    case 2: a.addScalarDiag(m.v); return "addScalarDiag";
+    default: a.fill(m.v); return "fill";
+  }
+}
+
+static void copyBody(const CopyCase& c, Ctx& ctx, const std::function<void(const char*)>& say)
+{
+  defineDefaultSpace(ESpaceType::RN, (unsigned)c.ndim);
+  int ndim = c.ndim;
+  switch (c.kind)
+  {
+    case CK_DB:
+      copyScenario<Db>(c, ctx, buildDb(c.d1), buildDb(c.d2), [](const Db& d) { return serDb(&d); }, [](Db& d, const Mut& m) { return mutateDb(d, m, false); },
+                       [](const Db& d) { return d.clone(); }, say);
+      break;
+    case CK_GRID:
+      copyScenario<DbGrid>(c, ctx, buildGrid(c.g1), buildGrid(c.g2), [](const DbGrid& d) { return serDb(&d); },
+                           [](DbGrid& d, const Mut& m) { return mutateDb(d, m, true); }, [](const DbGrid& d) { return d.clone(); }, say);
+      break;
+    case CK_MODEL:
+    {
+      CovSpec extra = c.m2.covs[0];
+      copyScenario<Model>(c, ctx, buildModel(c.m1), buildModel(c.m2), [](const Model& m) { return serModel(&m); },
+                          [&](Model& md, const Mut& m) -> std::string {
+                            int n = md.getCovaNumber();
+                            switch (m.op % 7)
+                            {
+                              case 0: addCovTo(&md, extra, ndim); return "addCov";
+                              case 1: if (n < 1) return ""; md.delCova(m.a % n); return "delCova";
+                              case 2: if (n < 1) return ""; return mutateCov(*md.getCova(m.a % n), m, ndim);
+                              case 3: md.setDriftIRF(m.a % 3); return "setDriftIRF";
+                              case 4: md.setMeans(VectorDouble((size_t)md.getVariableNumber(), m.v)); return "setMeans";
+                              case 5: if (n < 1) return ""; md.setCovaFiltered(m.a % n, true); return "setCovaFiltered";
+                              default: md.delAllCovas(); return "delAllCovas";
+                            }
+                          },
+                          [](const Model& m) { return m.clone(); }, say);
+      break;
+    }
+    case CK_COVLIST:
+    {
+      std::unique_ptr<Model> ma = buildModel(c.m1), mb = buildModel(c.m2);
+      std::unique_ptr<ACovAnisoList> la(new ACovAnisoList(*ma->getCovAnisoList())), lb(new ACovAnisoList(*mb->getCovAnisoList()));
+      copyScenario<ACovAnisoList>(c, ctx, std::move(la), std::move(lb), [](const ACovAnisoList& l) { return serCovList(&l); },
+                                  [&](ACovAnisoList& l, const Mut& m) -> std::string {
+                                    int n = l.getCovaNumber();
+                                    switch (m.op % 5)
+                                    {
+                                      case 0: l.addCov(mb->getCova(0)); return "addCov";
+                                      case 1: if (n < 1) return ""; l.delCov(m.a % n); return "delCov";
+                                      case 2: if (n < 1) return ""; return mutateCov(*l.getCova(m.a % n), m, ndim);
+                                      case 3: if (n < 1) return ""; l.setFiltered(m.a % n, true); return "setFiltered";
+                                      default: l.delAllCov(); return "delAllCov";
+                                    }
+                                  },
+                                  [](const ACovAnisoList& l) { return l.clone(); }, say);
+      break;
+    }
+    case CK_COV:
+    {
+      std::unique_ptr<Model> ma = buildModel(c.m1), mb = buildModel(c.m2);
+      std::unique_ptr<CovAniso> ca(ma->getCova(0)->clone()), cb(mb->getCova(0)->clone());
+      ma.reset();
+      mb.reset();
+      copyScenario<CovAniso>(c, ctx, std::move(ca), std::move(cb), [](const CovAniso& v) { return serCov(&v); },
+                             [&](CovAniso& v, const Mut& m) { return mutateCov(v, m, ndim); }, [](const CovAniso& v) { return v.clone(); }, say);
+      break;
+    }
+    case CK_DRIFTS:
+    {
+      std::unique_ptr<Model> ma = buildModel(c.m1), mb = buildModel(c.m2);
+      std::unique_ptr<DriftList> da(ma->getDriftList()->clone()), dbb(mb->getDriftList()->clone());
+      copyScenario<DriftList>(c, ctx, std::move(da), std::move(dbb), [](const DriftList& d) { return serDrifts(&d); },
+                              [&](DriftList& d, const Mut& m) -> std::string {
+                                int n = d.getDriftNumber();
+                                switch (m.op % 4)
+                                {
+                                  case 0: { VectorInt pw((size_t)ndim, 0); pw[0] = 1 + m.a % 2; DriftM dm(pw); d.addDrift(&dm); return "addDrift"; }
+                                  case 1: if (n < 1) return ""; d.delDrift((unsigned)(m.a % n)); return "delDrift";
+                                  case 2: if (n < 1) return ""; d.setFiltered(m.a % n, true); return "setFiltered";
+                                  default: d.delAllDrifts(); return "delAllDrifts";
+                                }
+                              },
+                              [](const DriftList& d) { return d.clone(); }, say);
+      break;
+    }
+    case CK_NEIGH:
+      copyScenario<NeighMoving>(c, ctx, buildMoving(c.n1, c.chk1, ndim), buildMoving(c.n2, c.chk2, ndim), [](const NeighMoving& n) { return serNeigh(&n); },
+                                [&](NeighMoving& n, const Mut& m) -> std::string {
+                                  switch (m.op % 5)
+                                  {
+                                    case 0: n.setNMaxi(20 + m.a); return "setNMaxi";
+                                    case 1: n.setNMini(4 + m.a); return "setNMini";
+                                    case 2: n.setNSect(5 + m.a); n.setNSMax(3 + m.b); return "setNSect";
+                                    case 3: n.setDistCont(0.25 + 0.05 * m.a); return "setDistCont";
+                                    default: n.addBiTargetCheck(newChecker(m.a)); return "addBiTargetCheck";
+                                  }
+                                },
+                                [](const NeighMoving& n) { return new NeighMoving(n); }, say);
+      break;
+    case CK_VARIO:
+    {
+      std::unique_ptr<Db> da = buildDb(c.d1), dbb = buildDb(c.d2);
+      std::unique_ptr<VarioParam> pa = buildVarioParam(c.v1, ndim), pb = buildVarioParam(c.v2, ndim);
+      std::unique_ptr<Vario> va(Vario::computeFromDb(*pa, da.get())), vb(Vario::computeFromDb(*pb, dbb.get()));
+      if (!va || !vb) { ctx.inconclusive("variogram-not-computed"); return; }
+      da.reset(); dbb.reset(); pa.reset(); pb.reset();
+      copyScenario<Vario>(c, ctx, std::move(va), std::move(vb), [](const Vario& v) { return serVario(&v); },
+                          [&](Vario& v, const Mut& m) -> std::string {
+                            int idir = m.a % v.getDirectionNumber(), ipas = m.b % v.getLagNumber(idir);
+                            switch (m.op % 4)
+                            {
+                              case 0: v.setGg(idir, 0, 0, ipas, m.v + 50.); return "setGg";
+                              case 1: v.setSw(idir, 0, 0, ipas, m.v + 50.); return "setSw";
+                              case 2: v.setHh(idir, 0, 0, ipas, m.v + 50.); return "setHh";
+                              default: v.setVar(m.v + 50., 0, 0); return "setVar";
+                            }
+                          },
+                          [](const Vario& v) { return v.clone(); }, say);
+      break;
+    }
+    case CK_VARIOPARAM:
+      copyScenario<VarioParam>(c, ctx, buildVarioParam(c.v1, ndim), buildVarioParam(c.v2, ndim), [](const VarioParam& v) { return serVarioParam(&v); },
+                               [&](VarioParam& v, const Mut& m) -> std::string {
+                                 int n = v.getDirectionNumber();
+                                 switch (m.op % 5)
+                                 {
+                                   case 0: { std::unique_ptr<DirParam> d(DirParam::createOmniDirection(3 + m.a, m.v)); v.addDir(*d); return "addDir"; }
+                                   case 1: if (n < 1) return ""; v.delDir(m.a % n); return "delDir";
+                                   case 2: v.setScale(m.v); return "setScale";
+                                   case 3: v.setDates({0., m.v, m.v, 2. * m.v}); return "setDates";
+                                   default: v.delAllDirs(); return "delAllDirs";
+                                 }
+                               },
+                               [](const VarioParam& v) { return v.clone(); }, say);
+      break;
+    case CK_MATRECT:
+      copyScenario<MatrixRectangular>(c, ctx, std::make_unique<MatrixRectangular>(rectOf(c.a1, c.nr, c.nc)), std::make_unique<MatrixRectangular>(rectOf(c.a2, c.nc, c.nr)),
+                                      [](const MatrixRectangular& a) { return serMat(&a); }, [](MatrixRectangular& a, const Mut& m) { return mutateMat(a, m); },
+                                      [](const MatrixRectangular& a) { return a.clone(); }, say);
+      break;
+    case CK_MATSYM:
+      copyScenario<MatrixSquareSymmetric>(c, ctx, std::make_unique<MatrixSquareSymmetric>(spdOf(c.a1, c.nr, 1.)), std::make_unique<MatrixSquareSymmetric>(spdOf(c.a2, c.nr, 2.)),
+                                          [](const MatrixSquareSymmetric& a) { return serMat(&a); }, [](MatrixSquareSymmetric& a, const Mut& m) { return mutateMat(a, m); },
+                                          [](const MatrixSquareSymmetric& a) { return a.clone(); }, say);
+      break;
+    default:
+    {
+      auto mk = [&](const std::vector<double>& a, int nr, int nc) {
+        NF_Triplet T;
+        for (int i = 0; i < nr; i++)
+          for (int j = 0; j < nc; j++)
+            if (a[(size_t)(i * nc + j)] != 0) T.add(i, j, a[(size_t)(i * nc + j)]);
+        if (a[(size_t)(nr * nc - 1)] == 0) T.force(nr, nc);
+        return std::unique_ptr<MatrixSparse>(MatrixSparse::createFromTriplet(T, nr, nc, c.sparseEigen));
+      };
+      copyScenario<MatrixSparse>(c, ctx, mk(c.a1, c.nr, c.nc), mk(c.a2, c.nc, c.nr), [](const MatrixSparse& a) { return serMat(&a); },
+                                 [](MatrixSparse& a, const Mut& m) -> std::string {
+                                   // only entries of the pattern can be set; scaling is always possible
+                                   if (m.op % 2 == 0) { a.prodScalar(m.v + 1.); return "prodScalar"; }
+                                   a.addScalarDiag(m.v);
+                                   return "addScalarDiag";
+                                 },
+                                 [](const MatrixSparse& a) { return a.clone(); }, say);
+      break;
+    }
+  }
+}
+
+struct CopyResult
+{
+  int failed = 0, nt = 0, inc = 0;
+  std::string key, msg;
+  template<class A> void io(A& a) { a("failed", failed)("nt", nt)("inc", inc)("key", key)("msg", msg); }
+};
+static void runCopy(const CopyCase& c, Ctx& ctx)
+{
+  static const char* hows[] = {"copy-constructor", "operator=", "clone"};
+  ctx.label(std::string("class:") + ckName(c.kind));
+  ctx.label(std::string("how:") + hows[c.how]);
+  int fd[2];
+  if (pipe(fd) != 0) { ctx.inconclusive("pipe"); return; }
+  fflush(nullptr);
+  pid_t pid = fork();
+  if (pid == 0)
+  {
+    ::close(fd[0]);
+    stats().outPrefix.clear();
+    __sanitizer_set_death_callback(noopDeath);
+    if (!verbose()) { int nul = open("/dev/null", O_WRONLY); if (nul >= 0) dup2(nul, 2); }
+    alarm(60);
+    int wfd = fd[1];
+    auto say = [wfd](const char* s) { std::string t = std::string("S ") + s + "\n"; ssize_t k = write(wfd, t.data(), t.size()); (void)k; };
+    Ctx cc;
+    std::string res;
+    try
+    {
+      copyBody(c, cc, say);
+    }
+    catch (const LibExit&)
+    {
+      cc.fail("lib-exit", "the library called its exit function");
+    }
+    catch (const std::exception& e)
+    {
+      cc.fail("exception", e.what());
+    }
+    CopyResult r;
+    r.failed = cc.failed();
+    r.nt = cc.nt;
+    r.inc = cc.inconc;
+    if (cc.failed()) { r.key = cc.fails[0].key; r.msg = cc.fails[0].msg; }
+    std::string t = "R\n" + toText(r);
+    ssize_t k = write(wfd, t.data(), t.size());
+    (void)k;
+    _exit(0);
+  }
+  ::close(fd[1]);
+  std::string all;
+  char buf[65536];
+  for (;;)
+  {
+    ssize_t k = read(fd[0], buf, sizeof buf);
+    if (k > 0) all.append(buf, (size_t)k);
+    else if (k == 0) break;
+    else if (errno != EINTR) break;
+  }
+  ::close(fd[0]);
+  int st = 0;
+  while (waitpid(pid, &st, 0) < 0 && errno == EINTR) {}
+  std::string stage = "start";
+  size_t pos = 0;
+  while (pos < all.size())
+  {
+    size_t nl = all.find('\n', pos);
+    if (nl == std::string::npos) break;
+    std::string line = all.substr(pos, nl - pos);
+    pos = nl + 1;
+    if (line.rfind("S ", 0) == 0) stage = line.substr(2);
+    else if (line == "R")
+    {
+      CopyResult r;
+      if (!fromText(all.substr(pos), r)) break;
+      if (r.failed) ctx.fail(r.key, r.msg);
+      else if (r.inc) ctx.inconclusive("child");
+      else ctx.nontrivial(r.nt != 0);
+      return;
+    }
+  }
+  ctx.fail(std::string("copy:") + ckName(c.kind) + ":" + hows[c.how] + ":crash-after-" + stage,
+           fmt("the process dies after stage '%s' (mutated side: %s, destroyed first: %s; wait status 0x%x)", stage.c_str(), c.mutSide ? "copy" : "source",
+               c.destroyFirst ? "copy" : "source", st));
+}
+VERIF_SUB(copies, CopyCase, genCopy, runCopy);
 
 VERIF_MAIN()
